@@ -129,6 +129,30 @@ fn c19_sub_reader_any_length() {
 	kani::cover!(!good && length > u64::MAX / 2);
 }
 
+// get_sub_reader alone: any position, ANY announced length (u64) - accepted only if it fits, never an overflow of position + length
+#[kani::proof]
+#[kani::unwind(10)]
+#[kani::stub(std::fmt::format, crate::verif_kani::stubs::fmt_format)]
+#[kani::stub(std::backtrace::Backtrace::capture, crate::verif_kani::stubs::backtrace_capture)]
+fn c19_get_sub_reader_any_length() {
+	let data: [u8; 8] = kani::any();
+	let mut r = ValueReaderSlice::new_le(&data);
+	let skip: u8 = kani::any();
+	kani::assume(skip <= 8);
+	let _ = ok(r.set_position(skip as u64));
+	let length: u64 = kani::any();
+	let s = r.get_sub_reader(length);
+	let good = s.is_ok();
+	std::mem::forget(s);
+	if good {
+		assert!(length <= 8 - skip as u64, "a sub-reader longer than the remaining bytes is handed out");
+	} else {
+		assert!(length > 8 - skip as u64, "a sub-reader that fits is refused");
+	}
+	kani::cover!(good && length > 0);
+	kani::cover!(!good && length > u64::MAX - 4);
+}
+
 // varint round trip: write_varint then read_varint is the identity on all u64; svarint on all i64
 #[kani::proof]
 #[kani::unwind(12)]
